@@ -686,6 +686,44 @@ fn scale(tier: Tier, totals: &mut Totals) {
             );
         }
     }
+    // bare names: the same operations with the scratch directory as working directory and the paths written
+    // without any directory part (and as ./name), a file copied and moved onto itself under both spellings
+    for name in ["a.txt", "a b.txt", "é.txt", "0", "no"] {
+        for (self_src, self_dst) in [("N", "N"), ("N", "./N"), ("./N", "N"), ("./N", "./N")] {
+            let src = self_src.replace('N', name);
+            let dst = self_dst.replace('N', name);
+            let text = format!(
+                "cd \"{d}\"\nw = writefile \"{n}\" one\nc = cp \"{s}\" \"{t}\"\nr1 = readfile \"{n}\"\nm = mv \"{s}\" \"{t}\"\ne1 = is_path_exists \"{n}\"\nr2 = readfile \"{n}\"\nc2 = cp \"{n}\" copy.txt\nr3 = readfile copy.txt\nm2 = mv copy.txt moved.txt\ne2 = is_path_exists copy.txt\nr4 = readfile ./moved.txt\nap = appendfile \"{n}\" -more\nr5 = readfile \"./{n}\"\nsz = get_file_size \"{n}\"\nf = is_file \"{n}\"\nrm moved.txt\nrm \"{n}\"\ne3 = is_path_exists \"./{n}\"",
+                d = d,
+                n = name,
+                s = src,
+                t = dst
+            );
+            crate::util::scale_case_totals(
+                totals,
+                &format!("bare-names {:?} onto-itself {:?} {:?}", name, src, dst),
+                &text,
+                &[
+                    ("w", Some("true".into())),
+                    ("c", Some("true".into())),
+                    ("r1", Some("one".into())),
+                    ("m", Some("true".into())),
+                    ("e1", Some("true".into())),
+                    ("r2", Some("one".into())),
+                    ("c2", Some("true".into())),
+                    ("r3", Some("one".into())),
+                    ("m2", Some("true".into())),
+                    ("e2", Some("false".into())),
+                    ("r4", Some("one".into())),
+                    ("ap", Some("true".into())),
+                    ("r5", Some("one-more".into())),
+                    ("sz", Some("8".into())),
+                    ("f", Some("true".into())),
+                    ("e3", Some("false".into())),
+                ],
+            );
+        }
+    }
     // a handful of files read over and over in every order (every sequence of four reads over the files,
     // one after the other in one long history), one of them rewritten, appended to, copied over or moved
     // away and back every few reads: each read gives what the file holds at that moment
@@ -825,7 +863,7 @@ pub fn replay(case: &Value) -> Result<String, String> {
     Ok(out.join("\n").replace(&d, "<scratch>"))
 }
 
-pub const RULE: &str = "explicit-state breadth-first search from the empty directory to a fixpoint: writefile / appendfile with 3 contents, write/read binary file, readfile, touch, mkdir, cp and mv for every ordered pair of paths, rm, rm -r, rmdir, is_path_exists, is_file, is_dir, get_file_size and a recursive glob_array listing, over the paths {a.txt, d, d/b.txt, (d/e/c.txt,) 's p/ü.txt'} and the directories d/e and 's p'; operations that would exceed the entry or size bound are disabled; operations the documentation does not fix in the current state (directory sources of cp/mv, mv to a missing extension-less path, touch on a directory) are not generated. Each transition materialises the tree in a fresh scratch directory, runs the real command with absolute paths, snapshots the directory and compares output and the complete tree with the model (a failing operation must leave the tree unchanged). basename / dirname / join_path are swept separately (they do not depend on the tree). evaluations = transitions; distinct_nontrivial = distinct trees. Scale cases: write / read / size / cp / append / mv / overwrite with contents of 4095..65537 bytes (thorough: up to 5 MB), plain and with a two-byte character across the middle; 12 short contents that start or end with a byte order mark, line breaks, blanks, TAB, no-break / ideographic space, '#', a quote (write / read / size / cp / append). Bytes belong to their handle: read, change the file in one of 6 ways (or not), read again under one of 3 spellings of the path: two handles, each with the bytes of its moment, written out and released independently. Path functions by rule: paths of two and three elements from 12 names (blank, dots, hidden, multi-byte, CJK, emoji, combining mark), relative and absolute, with and without a trailing separator: basename, dirname, join_path. The path pool also has 19 elements that read as false, true, condition syntax, commands, options or special characters (0, no, false, set, not, -r, %, $x, a=b, #1 ...) Reads in every order: 3, 5, 6 (thorough 7, 9) files, every sequence of four reads over them in one long history, every 13 reads one file rewritten / appended to / copied over / moved away and back / removed and written again: each read gives what the file holds at that moment.";
+pub const RULE: &str = "explicit-state breadth-first search from the empty directory to a fixpoint: writefile / appendfile with 3 contents, write/read binary file, readfile, touch, mkdir, cp and mv for every ordered pair of paths, rm, rm -r, rmdir, is_path_exists, is_file, is_dir, get_file_size and a recursive glob_array listing, over the paths {a.txt, d, d/b.txt, (d/e/c.txt,) 's p/ü.txt'} and the directories d/e and 's p'; operations that would exceed the entry or size bound are disabled; operations the documentation does not fix in the current state (directory sources of cp/mv, mv to a missing extension-less path, touch on a directory) are not generated. Each transition materialises the tree in a fresh scratch directory, runs the real command with absolute paths, snapshots the directory and compares output and the complete tree with the model (a failing operation must leave the tree unchanged). basename / dirname / join_path are swept separately (they do not depend on the tree). evaluations = transitions; distinct_nontrivial = distinct trees. Scale cases: write / read / size / cp / append / mv / overwrite with contents of 4095..65537 bytes (thorough: up to 5 MB), plain and with a two-byte character across the middle; 12 short contents that start or end with a byte order mark, line breaks, blanks, TAB, no-break / ideographic space, '#', a quote (write / read / size / cp / append). Bytes belong to their handle: read, change the file in one of 6 ways (or not), read again under one of 3 spellings of the path: two handles, each with the bytes of its moment, written out and released independently. Path functions by rule: paths of two and three elements from 12 names (blank, dots, hidden, multi-byte, CJK, emoji, combining mark), relative and absolute, with and without a trailing separator: basename, dirname, join_path. The path pool also has 19 elements that read as false, true, condition syntax, commands, options or special characters (0, no, false, set, not, -r, %, $x, a=b, #1 ...) Reads in every order: 3, 5, 6 (thorough 7, 9) files, every sequence of four reads over them in one long history, every 13 reads one file rewritten / appended to / copied over / moved away and back / removed and written again: each read gives what the file holds at that moment. Bare names: with the scratch directory as working directory, 5 names written without a directory part and as ./name: write, copy and move onto itself (4 spelling pairs), copy, move, append, size, remove.";
 pub const ASSUMPTIONS: &[&str] = &["the scratch directory is on tmpfs (/dev/shm) or a local file system without symlinks, permissions left at their defaults", "the output of rm on a missing path and of cp / mv of a file onto itself is not compared (only the tree, which must be unchanged)"];
 pub const EXHAUSTIVE: bool = true;
 pub const WALL_CAP_S: (u64, u64) = (58, 1500);
